@@ -6,14 +6,16 @@ import Hs.Model.Cmp
 import Hs.Lemmas.CmpEq
 namespace Hs
 
-theorem Flt.hashBits_of_key (x y : Flt) (h : x.key = y.key) : x.hashBits = y.hashBits := by
+theorem Flt.hashBits_of_key (x y : Flt) (hx : x.isNaN = false) (hy : y.isNaN = false)
+    (h : x.key = y.key) : x.hashBits = y.hashBits := by
   unfold Flt.hashBits
+  simp only [hx, hy, Bool.false_eq_true, if_false]
   unfold Flt.key at h
   split at h <;> split at h <;> split <;> split <;> omega
 
 theorem Flt.feq_hash (x y : Flt) (h : x.feq y = true) : x.hashBits = y.hashBits := by
   simp [Flt.feq] at h
-  exact Flt.hashBits_of_key x y h.2
+  exact Flt.hashBits_of_key x y h.1.1 h.1.2 h.2
 
 theorem Date.cmp_eq (a b : Date) (h : a.cmp b = .eq) : a.y = b.y ∧ a.m = b.m ∧ a.d = b.d := by
   simpa [Date.cmp, Ordering.then_eq_eq, Int.compare_eq_eq, Nat.compare_eq_eq] using h
